@@ -73,6 +73,19 @@ def usage_of(expr):
     return {'vars': sorted(expr.variables_used), 'funcs': sorted(expr.functions_used), 'sufs': sorted(expr.suffixes_used)}
 
 
+def object_state(expr):
+    """every attribute of a (cached) MathExpression, canonically: the model treats these objects as immutable once built"""
+    out = {}
+    for k, v in sorted(vars(expr).items()):
+        if k == 'tree':
+            out[k] = json.dumps(canon(v), separators=(',', ':'), ensure_ascii=False)
+        elif isinstance(v, (set, frozenset)):
+            out[k] = sorted(v)
+        else:
+            out[k] = repr(v)
+    return out
+
+
 def call_parse(parser, s):
     from mitxgraders.exceptions import MITxError
     try:
@@ -222,34 +235,44 @@ def run(ctx):
     # ---- (3) the shared module-level PARSER with interleaved evaluate calls
     envs = [({'x': 2.0, 'y': 3.0, 'a': 1.5, 'b': 0.5, 'qq': 1.0}, {'k': 1000.0, '%': 0.01}),
             ({'x': -1.0, 'y': 0.25, 'a': 2.0, 'b': 4.0, 'qq': 3.0}, {'k': 1024.0, '%': 0.01, 'M': 1e6})]
+    from mitxgraders.helpers.calc import MathArray
+    # a third environment gives the same names ARRAY values: '[x, y]' is then a matrix, and max_array_dim / max_array_dim_used differ per call
+    envs.append(({'x': MathArray([1.0, 2.0]), 'y': MathArray([3.0, 4.0]), 'a': MathArray([0.5, 0.25]), 'b': MathArray([2.0, 1.0]), 'qq': 1.0}, {'k': 1000.0, '%': 0.01}))
     funcs = {'sin': lambda v: v + 1, 'hh': lambda v: 2 * v, 'f': lambda v: v * v}
-    evpool = ['x+1', '2k+1', '2k*y', 'sin(x)+2k', 'x+', 'sin(a)+2k*(b', 'qq+hh(1)', '3*1e999', 'y^2', '1/0', 'x /(y-3)', 'f(x)||2', '5%', 'zz+1', '2M']
+    evpool = ['x+1', '2k+1', '2k*y', 'sin(x)+2k', 'x+', 'sin(a)+2k*(b', 'qq+hh(1)', '3*1e999', 'y^2', '1/0', 'x /(y-3)', 'f(x)||2', '5%', 'zz+1', '2M',
+              '[x, y]', '[a, b] + [b, a]', '[x, y]*2', '[[1, 2], [3, 4]]*[1, 1]', '[x, y', 'x*y', '[x+1, qq]', '[1, 2] + x']
     for k in range(ctx.scale(60, 800)):
         ops = []
         for _ in range(rng.randint(4, 40)):
             if rng.random() < 0.5:
                 ops.append(('parse', rng.choice(pool)))
             else:
-                ops.append(('eval', rng.choice(evpool), rng.randrange(2), rng.random() < 0.3))
+                ops.append(('eval', rng.choice(evpool), rng.randrange(3), rng.random() < 0.3, rng.choice([0, 1, 1, 2])))
         failed = False
         for i, op in enumerate(ops):
             if op[0] == 'parse':
                 r = call_parse(PARSER, op[1])
                 fresh = call_parse(MathParser(), op[1])
             else:
-                _, s, ei, ainf = op
+                _, s, ei, ainf, mad = op
                 vs, sf = envs[ei]
 
                 def ev_shared():
-                    return evaluator(s, variables=vs, functions=funcs, suffixes=sf, allow_inf=ainf)[0]
+                    return evaluator(s, variables=vs, functions=funcs, suffixes=sf, allow_inf=ainf, max_array_dim=mad)
 
                 def ev_fresh():
-                    return MathParser().parse(s).eval(vs, funcs, sf, allow_inf=ainf)[0]
+                    # the same call with an empty cache (what a process that never saw the string would do); the history's cache is put back afterwards
+                    saved = dict(PARSER.cache)
+                    PARSER.cache.clear()
+                    try:
+                        return evaluator(s, variables=vs, functions=funcs, suffixes=sf, allow_inf=ainf, max_array_dim=mad)
+                    finally:
+                        PARSER.cache.clear(); PARSER.cache.update(saved)
 
                 def outcome(fn):
                     try:
-                        v = fn()
-                        return ('val', repr(v))
+                        v, meta = fn()
+                        return ('val', repr(v), sorted(meta.variables_used), sorted(meta.functions_used), sorted(meta.suffixes_used), meta.max_array_dim_used)
                     except MITxError as e:
                         return ('err', type(e).__name__, str(e))
                     except Exception as e:
@@ -393,7 +416,15 @@ def cache_sweep(ctx, fresh_usage, history):
                 fresh_usage[key] = usage_of(MathParser().parse(key))
             except Exception as e:
                 fresh_usage[key] = ('unparseable', type(e).__name__)
-        if usage_of(expr) != fresh_usage[key]:
+        if isinstance(fresh_usage[key], dict) and 'state' not in fresh_usage[key]:
+            fresh_usage[key] = dict(fresh_usage[key], state=object_state(MathParser().parse(key)))
+        if isinstance(fresh_usage[key], dict) and object_state(expr) != fresh_usage[key]['state']:
+            ctx.violation('a cached expression object was changed by using it (its attributes differ from those of a fresh parse of the same string)',
+                          {'string': key, 'kind': 'cache-sweep-state', 'history': history[-12:]}, impl=object_state(expr), expected=fresh_usage[key]['state'])
+            bad += 1
+            if bad >= 3:
+                break
+        if usage_of(expr) != {k: v for k, v in fresh_usage[key].items() if k != 'state'}:
             ctx.violation('names reported for a string changed after other library calls (cached name sets were altered)',
                           {'string': key, 'kind': 'cache-sweep', 'history': history[-12:]}, impl=usage_of(expr), expected=fresh_usage[key])
             bad += 1
